@@ -198,15 +198,16 @@ META["C15"] = {
 
 META["C20"] = {
     "title": "group_by sends every item to exactly one group, in order",
-    "rule": "cases = (key function in {constant, identity, mod 2, mod 3}, script, group subject type Subject|SubjectThreads, hot Subject or cold create source). Enumerated: every script over {0,1,2,3} up to length 5 quick / 7 thorough x terminal {none, complete, error}; plus seeded random scripts up to length 8/12 with post-terminal events. A probe is attached to each group inside the outer observer's next (as the group is announced). Hot cases are additionally flattened back through group_by+flat_map and compared with the source. Non-trivial: at least two groups and one group with at least two items; distinct = hash(case).",
+    "rule": "cases = (key function in {constant, identity, mod 2, mod 3}, script, group subject type Subject|SubjectThreads, hot Subject or cold create source). Enumerated: every script over {0,1,2,3} up to length 5 quick / 7 thorough x terminal {none, complete, error}; plus seeded random scripts up to length 8/12 with post-terminal events. A probe is attached to each group inside the outer observer's next (as the group is announced). Hot cases are additionally flattened back through group_by+flat_map and compared with the source. group_by takes an FnMut: every enumerated script also runs with stateful discriminators (key of the i-th item handed over = i/n for n in 1..3, whatever the item; counter cases_with_a_stateful_discriminator), as does a fifth of the random scripts. Non-trivial: at least two groups and one group with at least two items; distinct = hash(case).",
     "assumptions": COMMON_ASSUME + [
         "the relative order of the groups' terminals and the outer terminal is not part of the property and not checked",
+        "'the key of an item' is what the discriminator returns when it is applied once to every source item in source order (it is an FnMut in the API); the pure functions of the stated family cannot tell, the stateful ones can",
     ],
     "technique": "runtime monitoring: per-group recording probes attached at announcement on the real group_by, checked against a partition model; flatten-back comparison",
     "level_text": "Exploration: enumerated scripts x key functions plus random scripts, each compared with the partition model.",
     "level_note": "Trusted: partition model in harness/src/props/c20.rs, probes.",
     "design_ref": "DESIGN.md §5 C20",
-    "require": {"quick": {"group_subject_types": 2}, "thorough": {"group_subject_types": 2}},
+    "require": {"quick": {"group_subject_types": 2, "cases_with_a_stateful_discriminator": 20000}, "thorough": {"group_subject_types": 2, "cases_with_a_stateful_discriminator": 500000}},
 }
 
 META["C16"] = {
@@ -282,15 +283,16 @@ META["C13"] = {
 
 META["C17"] = {
     "title": "is_closed() is sound and composites tear down late additions",
-    "rule": "two batteries. (a) composite histories: random histories of length <= 8 quick / <= 13 thorough over append / append-nested-composite / clone / unsubscribe / retain / sample on MultiSubscription and MultiSubscriptionThreads with tracked children: every child appended before unsubscribe() is unsubscribed exactly once, every remaining clone reports closed afterwards, a child appended afterwards has been unsubscribed by the time append returns. (b) random pipelines over the whole catalogue (so that unit, Subscriber, pair, composite, task-handle, ref-count, finalizer and boxed subscriptions all occur), is_closed() of the returned subscription sampled before every explorer step: once it returned true no notification may be delivered through that subscription and it may never return false again. (c) a direct battery on ZipSubscription (all four closed/open combinations of its halves), SubscriptionGuard, MutRc<Option<S>> handle clones and BoxSubscription with counting children. subscription_types_covered lists every subscription type that occurred. Non-trivial: (a) an append fell after the unsubscribe; (b) is_closed() was sampled both false and true in the run; distinct = hash(case).",
+    "rule": "two batteries. (a) composite histories: random histories of length <= 8 quick / <= 13 thorough over append / append-nested-composite / clone / unsubscribe / retain / sample on MultiSubscription and MultiSubscriptionThreads with tracked children: every child appended before unsubscribe() is unsubscribed exactly once, every remaining clone reports closed afterwards, a child appended afterwards has been unsubscribed by the time append returns. (b) random pipelines over the whole catalogue (so that unit, Subscriber, pair, composite, task-handle, ref-count, finalizer and boxed subscriptions all occur), is_closed() of the returned subscription sampled before every explorer step: once it returned true no notification may be delivered through that subscription and it may never return false again. (c) a direct battery on ZipSubscription (all four closed/open combinations of its halves), SubscriptionGuard, MutRc<Option<S>> handle clones and BoxSubscription with counting children. (d) MultiSubscriptionThreads under the lock-point scheduler: unsubscribe() on one thread, 1-3 append() calls on a second, is_closed() samples on a third, over 0-2 children appended up front; afterwards the composite reports closed, so every child must have been unsubscribed exactly once, and is_closed() may not return to false once the composite holds an open child. (e) unsubscribe() racing the worker thread that runs the scheduled task of observe_on_threads / delay_threads / subscribe_on (task handles): nothing may begin on the probe after unsubscribe() returned. Histories in (a) also contain children whose own unsubscribe() appends one more child to the composite (an append in the middle of the teardown, counter histories_with_an_append_during_teardown): it must not be left running. subscription_types_covered lists every subscription type that occurred. Non-trivial: (a) an append fell after the unsubscribe; (b) is_closed() was sampled both false and true in the run; distinct = hash(case).",
     "assumptions": COMMON_ASSUME + [
         "`false` is always acceptable (the property is one-directional)",
+        "a live composite without children answers is_closed() == true (vacuously: nothing can be delivered through it) until its first child is appended; this is how delay/observe_on report closed after their last task, and it is not treated as 'returned true, later false'",
     ],
     "technique": "runtime monitoring: two-state monitor on is_closed() samples plus post-close delivery monitor on the probe; tracked child subscriptions on the real composite types",
     "level_text": "Exploration over sampled pipelines/schedules and composite histories.",
     "level_note": "Trusted: probe, tracked child subscription, explorer.",
     "design_ref": "DESIGN.md §5 C17",
-    "require": {"quick": {"appends_after_unsubscribe": 3000, "runs_where_is_closed_returned_true": 20000, "subscription_types_covered": 13}, "thorough": {"subscription_types_covered": 13}},
+    "require": {"quick": {"appends_after_unsubscribe": 3000, "runs_where_is_closed_returned_true": 20000, "subscription_types_covered": 13, "histories_with_an_append_during_teardown": 5000, "composite_thread_races": 4000, "thread_schedules": 4000}, "thorough": {"subscription_types_covered": 13, "composite_thread_races": 200000, "thread_schedules": 150000}},
 }
 
 META["C18"] = {
